@@ -281,6 +281,9 @@ def qlist(seq):
 # --------------------------------------------------------------------------
 # JSON round trip of values that appear in cases / artefacts
 # --------------------------------------------------------------------------
+_TAGS = ("Q", "F", "Sym", "float", "complex", "bytes", "set", "dict", "exc", "repr")
+
+
 def to_json(v):
   """Lossless, readable JSON encoding of the values used in cases."""
   if isinstance(v, Q):
@@ -304,6 +307,8 @@ def to_json(v):
   if isinstance(v, (set, frozenset)):
     return {"set": sorted((to_json(x) for x in v), key=repr)}
   if isinstance(v, dict):
+    if all(isinstance(k, str) for k in v) and not any(k in _TAGS for k in v):
+      return {k: to_json(x) for k, x in v.items()}
     return {"dict": [[to_json(k), to_json(x)] for k, x in v.items()]}
   if isinstance(v, BaseException):
     return {"exc": type(v).__name__, "msg": str(v)[:200]}
@@ -324,7 +329,8 @@ def from_json(v):
     if "bytes" in v: return bytes.fromhex(v["bytes"])
     if "set" in v: return set(from_json(x) for x in v["set"])
     if "dict" in v: return {_h(from_json(k)): from_json(x) for k, x in v["dict"]}
-    return v
+    if "exc" in v or "repr" in v: return v
+    return {k: from_json(x) for k, x in v.items()}
   return v
 
 
